@@ -265,7 +265,9 @@ fn res(name: &str) -> Vec<u8> {
 fn files(rng: &mut Rng) -> Vec<TestFile> {
     let mut v = Vec::new();
     for i in 0..3 {
-        let db = small_db(rng, if i == 0 { CompressionConfig::None } else { CompressionConfig::GZip });
+        let mut db = small_db(rng, if i == 0 { CompressionConfig::None } else { CompressionConfig::GZip });
+        // the minor version a writer states is what every entry point reports (KDBX 4.0, 4.1, and a later one)
+        db.config.version = DatabaseVersion::KDB4([0u16, 1, 3][i]);
         let mut buf = Vec::new();
         db.save(&mut buf, DatabaseKey::new().with_password("pw")).unwrap();
         v.push(TestFile { name: format!("saved{}", i), data: buf, key: DatabaseKey::new().with_password("pw"), cheap: true });
@@ -383,16 +385,23 @@ pub fn run_read(ctx: &mut Ctx) {
 pub fn run_write(ctx: &mut Ctx) {
     let mut rng = ctx.rng.fork();
     let ndb = if ctx.thorough { 20 } else { 3 };
-    for di in 0..ndb + 2 {
+    for di in 0..ndb + 3 {
         // the last database has a payload of exactly 5 MiB (a multiple of the 1 MiB block size of the HMAC block stream, and
         // more than any piece size a writer might hand to the sink at once)
         // … and the one after it a payload of 300 KiB, written to pipe-like sinks that take less than 64 KiB, 4 KiB, 1000 bytes a call
-        let mid = di == ndb + 1;
+        // … and one more of that size that is compressed (the attachment is random: the compressor cannot shrink it and has to
+        // take it in more than one piece)
+        let gz = di == ndb + 2;
+        let mid = di == ndb + 1 || gz;
         let big = di == ndb || mid;
         let key = DatabaseKey::new().with_password("pw");
         let db = if big {
             let comp = crate::keyop::ref_composite(&Some("pw".to_string()), &None).unwrap();
-            crate::saveop::big_db(&mut rng, if mid { 300 << 10 } else { 5 << 20 }, &key, &comp)
+            let mut d = crate::saveop::big_db(&mut rng, if mid { 300 << 10 } else { 5 << 20 }, &key, &comp);
+            if gz {
+                d.config.compression_config = CompressionConfig::GZip;
+            }
+            d
         } else {
             small_db(&mut rng, CompressionConfig::None)
         };
